@@ -5,8 +5,8 @@ from vlib import Case, hx
 
 HARNESS = "sim_driver"
 LEAN_MODULES = ["ViaProofs.C03"]
-LEMMA_MODULES = ['ViaProofs.ConnLemmas']
-REQUIRED_THEOREMS = ['Via.C03_partial_write_started', 'Via.C03_partial_bytes_stable', 'Via.C03_overlap_is_refused']
+LEMMA_MODULES = ['ViaProofs.ConnLemmas', 'ViaProofs.ConnWrites']
+REQUIRED_THEOREMS = ['Via.C03_partial_write_started', 'Via.C03_partial_bytes_stable', 'Via.C03_overlap_is_refused', 'Via.C03_partial_one_write_in_flight']
 LEVEL = "proof"
 TRUSTED_BASE = S.SIM_TRUSTED
 ASSUMPTIONS = S.SIM_ASSUMPTIONS
